@@ -364,14 +364,14 @@ func init() {
 	c12ExtraJobs = func(tier string) []reg.Job {
 		if tier == "thorough" {
 			return withPolicies(tier, []reg.Job{
-				{Part: "C12/closerace", Build: "instr", Args: map[string]string{"bound": "3"}, Shards: 16, BudgetS: 900, Label: "Close || ReadAt || third, db3"},
-				{Part: "C12/closerace", Build: "instr", Args: map[string]string{"bound": "3", "conc": "0"}, Shards: 16, BudgetS: 600, Label: "Close || sequential ReadAt || third, db3"},
+				{Part: "C12/closerace", Build: "instr", Args: map[string]string{"bound": "4"}, Shards: 16, BudgetS: 900, Label: "Close || ReadAt || third, db4"},
+				{Part: "C12/closerace", Build: "instr", Args: map[string]string{"bound": "4", "conc": "0"}, Shards: 16, BudgetS: 600, Label: "Close || sequential ReadAt || third, db4"},
 				{Part: "C12/closerace", Build: "instr", Args: map[string]string{"strategy": "por", "thirds": "Stat"}, Shards: 16, BudgetS: 600, Label: "Close || ReadAt || Stat, por", Optional: true},
 				{Part: "C12/closefail", Build: "instr", Args: map[string]string{"bound": "3"}, Shards: 8, BudgetS: 300, Label: "Close whose request cannot be written (transient failure), db3"},
 			}, func(reg.Job) bool { return true })
 		}
-		return withPolicies(tier, []reg.Job{{Part: "C12/closerace", Build: "instr", Args: map[string]string{"bound": "3"}, Shards: 16, BudgetS: 100, Label: "Close || ReadAt || third, db3"},
-			{Part: "C12/closefail", Build: "instr", Args: map[string]string{"bound": "2"}, Shards: 4, BudgetS: 100, Label: "Close whose request cannot be written (transient failure), db2"}}, func(reg.Job) bool { return true })
+		return withPolicies(tier, []reg.Job{{Part: "C12/closerace", Build: "instr", Args: map[string]string{"bound": "4"}, Shards: 16, BudgetS: 100, Label: "Close || ReadAt || third, db4"},
+			{Part: "C12/closefail", Build: "instr", Args: map[string]string{"bound": "3"}, Shards: 4, BudgetS: 100, Label: "Close whose request cannot be written (transient failure), db3"}}, func(reg.Job) bool { return true })
 	}
 	c12Prop.Rule += "; scheduled half: one File shared by three goroutines (Close || 3-chunk concurrent ReadAt || one of WriteAt, Stat, Truncate, a second Close, Read) against the permuting peer, all schedules with <= d deviations; " +
 		"oracle: each call returns its proper result or os.ErrClosed, exactly one CLOSE on the wire and nothing carrying the handle after it"
@@ -587,9 +587,9 @@ func init() {
 	prev := c12ExtraJobs
 	c12ExtraJobs = func(tier string) []reg.Job {
 		js := prev(tier)
-		b, budget := "2", 100
+		b, budget := "3", 100
 		if tier == "thorough" {
-			b, budget = "3", 600
+			b, budget = "4", 600
 		}
 		return append(js, withPolicies(tier, []reg.Job{{Part: "C12/feeder", Build: "instr", Args: map[string]string{"bound": b}, Shards: 16, BudgetS: budget,
 			Label: "failed concurrent upload from a slow source, then Close, db" + b}}, func(reg.Job) bool { return true })...)
